@@ -1801,6 +1801,11 @@ class Engine:
             if isinstance(a, types.FunctionType):
                 yield from self.call(st, BoundMethod(obj, a), args, {}, node)
                 return
+        # reflected operand: CPython tries the right operand's reflected method when the left one does not implement the operation
+        refl = {"__lt__": "__gt__", "__le__": "__ge__", "__gt__": "__lt__", "__ge__": "__le__", "__add__": "__radd__", "__sub__": "__rsub__", "__mul__": "__rmul__"}.get(name)
+        if refl and len(args) == 1 and isinstance(args[0], SRef) and refl in args[0].t.methods and not isinstance(obj, (SRef, Loc)):
+            yield from self.call(st, SymMethod(args[0], refl), [obj], {}, node)
+            return
         raise Unsupported(f"operator {name} on {obj!r}")
 
     # ===================================================================== calls
@@ -1814,7 +1819,7 @@ class Engine:
             return
         if any(isinstance(a, StarSeq) for a in args):
             import itertools as _it
-            if not isinstance(f, SymMethod) and f is not _it.chain:
+            if not isinstance(f, SymMethod) and f is not _it.chain and not (isinstance(f, SRef) and "__call__" in f.t.methods):
                 raise Unsupported("star-call with symbolic-length sequence to non-contract callee")
         if isinstance(f, BoundMethod):
             fn = f.func
